@@ -43,7 +43,7 @@ def O(t):
     return ("O", t)
 
 
-Q, Z, N, B, G, U, LIT, ID, FSTR, KSET, SEG, BUF, STR, SHP, TAG, OBJ, FNAME = "Q", "Z", "N", "B", "G", "U", "LIT", "Id", "F", "K", "Seg", "Buf", "Str", "Shp", "Tag", "Obj", "Fname"
+Q, Z, N, B, G, U, LIT, ID, FSTR, KSET, SEG, BUF, STR, SHP, TAG, OBJ, FNAME, ARR = "Q", "Z", "N", "B", "G", "U", "LIT", "Id", "F", "K", "Seg", "Buf", "Str", "Shp", "Tag", "Obj", "Fname", "Arr"
 
 
 def coq_type(t) -> str:
@@ -77,6 +77,8 @@ def coq_type(t) -> str:
         return "Z"
     if t == FNAME:
         return "fname"
+    if t == ARR:
+        return "axis"
     if isinstance(t, tuple) and t[0] == "S":
         return f"(list {coq_type(t[1])})"
     if isinstance(t, tuple) and t[0] == "D":
@@ -96,7 +98,7 @@ def coq_type(t) -> str:
 def parse_type(s: str):
     """'Q', 'O(Q)', 'L(L(Q))', 'T(Q,Q)' -> type"""
     s = s.strip()
-    for atom in (Q, Z, N, B, G, U, ID, FSTR, KSET, SEG, BUF, SHP, TAG, OBJ, FNAME):
+    for atom in (Q, Z, N, B, G, U, ID, FSTR, KSET, SEG, BUF, SHP, TAG, OBJ, FNAME, ARR):
         if s == atom:
             return atom
     if s.startswith("R{") and s.endswith("}"):  # record: R{tag:Tag;score:Q}
@@ -257,6 +259,7 @@ class Ctx:
             sub = Ctx(self.src_root, rel, tree, cls, self.prefix, self.consts, self.load_tree)
             sub.done, sub.emitted, sub.stack = self.done, self.emitted, self.stack
             sub.calls, sub.strings = getattr(self, "calls", {}), getattr(self, "strings", {})
+            sub.custom = getattr(self, "custom", [])
             coq_name = f"{self.prefix}__{node.name}" + (f"_{len([k for k in self.done if k[2] == node.name])}" if any(k[2] == node.name for k in self.done) else "")
             fn = Fn(node, {"ptypes": ptypes, "consts": self.consts, "calls": getattr(self, "calls", {}), "strings": getattr(self, "strings", {})}, coq_name, sub)
             txt = fn.translate()
@@ -349,6 +352,11 @@ class Fn:
     def expr(self, e, env, hoist, pure=False):
         def sub(x):
             return self.expr(x, env, hoist, pure)
+
+        for handler in self.iface.get("custom", []) or (self.ctx.custom if self.ctx is not None and getattr(self.ctx, "custom", None) else []):
+            r = handler(self, e, env, hoist, pure)
+            if r is not None:
+                return r
 
         if isinstance(e, ast.Constant):
             if isinstance(e.value, bool):
@@ -516,6 +524,9 @@ class Fn:
                     if tv[0] != "L":
                         raise Unsupported("reverse of non-list")
                     return f"(rev {v})", tv
+                # l[k:] for a constant k >= 0
+                if s.upper is None and s.step is None and isinstance(s.lower, ast.Constant) and isinstance(s.lower.value, int) and s.lower.value >= 0 and isinstance(tv, tuple) and tv[0] == "L":
+                    return f"(skipn {s.lower.value} {v})", tv
                 raise Unsupported("slice")
             i, ti = sub(s)
             if ti != LIT or Fraction(i).denominator != 1:
@@ -1151,7 +1162,7 @@ class Fn:
 
             def drop_narrow(env_b):  # after the branch the name has its outer meaning again unless reassigned
                 e2 = dict(env_b)
-                if e2.get(x, (None,))[0] == vname and not (some_falls and not none_falls):
+                if e2.get(x, (None,))[0] == vname and not (some_falls and not none_falls) and x not in W:
                     # (when the None branch never falls through — `if x is None: continue / raise / return` — what follows is
                     #  only reached with a value, and is emitted inside the Some branch: the narrowing stays)
                     e2[x] = env[x]
@@ -1416,6 +1427,47 @@ class Fn:
         return f"Definition {self.coq_name} {ps} : {rt} :=\n{body}."
 
 
+
+# ---------------------------------------------------------------- glue for xarray / pandas objects (one axis of an array)
+def arr_handler(fn, e, env, hoist, pure):
+    """<arr>.indexes[dim] -> the coordinates (a pandas index); <arr>.sizes[dim]; index.min() / .max() / .get_slice_bound(v, 'right');
+    <arr>.sel({dim: slice(a, b)}).  The array is one axis: (coordinate, value) pairs (type Arr = CropExtend.axis)."""
+    if isinstance(e, ast.Subscript) and isinstance(e.value, ast.Attribute) and isinstance(e.value.value, ast.Name) and e.value.value.id in env and env[e.value.value.id][1] == ARR:
+        a = env[e.value.value.id][0]
+        if e.value.attr == "indexes":
+            return f"(coords {a})", ("Idx",)
+        if e.value.attr == "sizes":
+            return f"(Z.of_nat (length {a}))", Z
+    if isinstance(e, ast.Call) and isinstance(e.func, ast.Attribute):
+        m = e.func.attr
+        if m in ("min", "max") and not e.args and not e.keywords:
+            h2 = []
+            try:
+                t, ty = fn.expr(e.func.value, env, h2, pure)
+            except Unsupported:
+                return None
+            if ty == ("Idx",) and not h2:
+                if pure:
+                    raise Unsupported("index.min() in a position that cannot fail")
+                name = fn.gensym(m)
+                hoist.append((name, f"py_idx_{m} {t}", Q))
+                return name, Q
+        if m == "get_slice_bound" and len(e.args) == 2 and not e.keywords and isinstance(e.args[1], ast.Constant) and e.args[1].value == "right":
+            t, ty = fn.expr(e.func.value, env, hoist, pure)
+            v, tv = fn.expr(e.args[0], env, hoist, pure)
+            if ty == ("Idx",) and tv == Q:
+                return f"(Z.of_nat (slice_bound_right {t} {v}))", Z
+        if m == "sel" and len(e.args) == 1 and not e.keywords and isinstance(e.args[0], ast.Dict) and len(e.args[0].keys) == 1:
+            sl = e.args[0].values[0]
+            if isinstance(sl, ast.Call) and isinstance(sl.func, ast.Name) and sl.func.id == "slice" and len(sl.args) == 2 and not sl.keywords:
+                t, ty = fn.expr(e.func.value, env, hoist, pure)
+                lo, tlo = fn.expr(sl.args[0], env, hoist, pure)
+                hi, thi = fn.expr(sl.args[1], env, hoist, pure)
+                if ty == ARR and tlo == Q and thi == Q:
+                    return f"(sel_slice {t} {lo} {hi})", ARR
+    return None
+
+
 # ---------------------------------------------------------------- units (what is translated, and its interface)
 def find_function(tree: ast.Module, qual: str) -> ast.FunctionDef:
     parts = qual.split(".")
@@ -1433,6 +1485,19 @@ def find_function(tree: ast.Module, qual: str) -> ast.FunctionDef:
     if not isinstance(node, ast.FunctionDef):
         raise Unsupported(f"{qual} is not a function")
     return node
+
+
+def find_function_last(tree: ast.Module, name: str) -> ast.FunctionDef:
+    """the last top-level definition of a name (the one that is in force; earlier ones may be @overload stubs)"""
+    found = None
+    for n in tree.body:
+        if isinstance(n, ast.FunctionDef) and n.name == name:
+            found = n
+    if found is None:
+        raise Unsupported(f"{name} not found")
+    if found.decorator_list:
+        raise Unsupported(f"{name} is decorated")
+    return found
 
 
 def class_validators(tree: ast.Module, cls: str, field: str) -> list[str]:
@@ -1531,6 +1596,7 @@ def generate(src_root: Path) -> tuple[str, dict]:
         try:
             ctx = Ctx(src_root, rel, tree(rel), qual.split(".")[0] if "." in qual else None, name, iface.get("consts", {}), tree)
             ctx.calls, ctx.strings = iface.get("calls", {}), iface.get("strings", {})
+            ctx.custom = iface.get("custom", [])
             fn = Fn(find_function(tree(rel), qual), iface, name, ctx)
             txt = fn.translate()
             report["units"][name] = "translated"
@@ -1687,6 +1753,61 @@ def generate(src_root: Path) -> tuple[str, dict]:
     cobj = "R{clip.uuid:Z;uuid:Z}"
     unit("iterate_over_valid_clips", "evaluation/tasks/common.py", "iterate_over_valid_clips",
          {"params": {"clip_predictions": f"L({cobj})", "clip_annotations": f"L({cobj})"}, "yields": True, "ret": f"L(T({cobj},{cobj}))"})
+
+    # ---- C05 (and the bounds every geometry property goes through): geometry_to_shapely and compute_bounds
+    rel = "geometry/conversion.py"
+    SHP_CALLS = {
+        "shapely.linestrings": {"coq": "shp_linestring", "args": ["L(L(Q))"], "ret": "Shp", "monadic": True},
+        "geometry.LineString": {"coq": "shp_linestring", "args": ["L(L(Q))"], "ret": "Shp", "monadic": True},
+        "geometry.box": {"coq": "shp_box", "args": ["Q", "Q", "Q", "Q"], "ret": "Shp"},
+        "geometry.Point": {"coq": "shp_point", "args": ["L(Q)"], "ret": "Shp", "monadic": True},
+        "geometry.Polygon": {"coq": "shp_polygon", "args": ["L(L(Q))", "L(L(L(Q)))"], "ret": "Shp", "monadic": True},
+        "geometry.MultiPoint": {"coq": "shp_multipoint", "args": ["L(L(Q))"], "ret": "Shp", "monadic": True},
+        "geometry.MultiLineString": {"coq": "shp_multilinestring", "args": ["L(L(L(Q)))"], "ret": "Shp", "monadic": True},
+        "geometry.MultiPolygon": {"coq": "shp_multipolygon", "args": ["L(Shp)"], "ret": "Shp", "monadic": True},
+    }
+    CONV = [("TimeStamp", "time_stamp_to_shapely"), ("TimeInterval", "time_interval_to_shapely"), ("Point", "point_to_shapely"),
+            ("LineString", "linestring_to_shapely"), ("Polygon", "polygon_to_shapely"), ("BoundingBox", "bounding_box_to_shapely"),
+            ("MultiPoint", "multipoint_to_shapely"), ("MultiLineString", "multilinestring_to_shapely"), ("MultiPolygon", "multipolygon_to_shapely")]
+    CT = {"TimeStamp": "Q", "TimeInterval": "T(Q,Q)", "Point": "L(Q)", "LineString": "L(L(Q))", "Polygon": "L(L(L(Q)))", "BoundingBox": "T(Q,Q,Q,Q)",
+          "MultiPoint": "L(L(Q))", "MultiLineString": "L(L(L(Q)))", "MultiPolygon": "L(L(L(L(Q))))"}
+    TYPED = {"TimeStamp": ("TimeStamp t", "t"), "TimeInterval": ("TimeInterval s e", "(s, e)"), "Point": ("Point t f", "[t; f]"),
+             "LineString": ("LineString l", "(pts_lists l)"), "Polygon": ("Polygon r", "(map pts_lists r)"), "BoundingBox": ("BBox s lo e hi", "(s, lo, e, hi)"),
+             "MultiPoint": ("MultiPoint l", "(pts_lists l)"), "MultiLineString": ("MultiLineString l", "(map pts_lists l)"),
+             "MultiPolygon": ("MultiPolygon l", "(map (map pts_lists) l)")}
+    try:
+        ct = tree(rel)
+        defs, glue, dcalls = [], [], {}
+        for cls_, fname_ in CONV:
+            fnode = find_function(ct, fname_)
+            pname = _Rename.fix(fnode.args.args[0].arg)
+            ann = ast.unparse(fnode.args.args[0].annotation).split(".")[-1]
+            if ann != cls_:
+                raise Unsupported(f"{fname_} takes a {ann}")
+            ctx = Ctx(src_root, rel, ct, None, fname_, consts, tree)
+            ctx.calls = SHP_CALLS
+            t_ = Fn(fnode, {"attrs": {f"{pname}.coordinates": CT[cls_]}, "calls": SHP_CALLS, "consts": consts, "ret": "Shp"}, fname_, ctx).translate()
+            defs.extend(ctx.emitted + [t_])
+            glue.append(f"Definition conv_{fname_} (g : geom) : res shp :=\n  match g with {TYPED[cls_][0]} => {fname_} {TYPED[cls_][1]} | _ => Err EOther end.")
+            dcalls[fname_] = {"coq": f"conv_{fname_}", "args": ["G"], "ret": "Shp", "monadic": True}
+        mnode = find_function_last(ct, "geometry_to_shapely")
+        main = Fn(mnode, {"params": {_Rename.fix(mnode.args.args[0].arg): "G"}, "calls": dcalls, "strings": TYPE_STRINGS, "ret": "Shp"}, "geometry_to_shapely").translate()
+        report["units"]["geometry_to_shapely"] = "translated"
+        emit("geometry_to_shapely", "\n".join(defs + ["(* glue: the converters applied to a geometry object of their class *)"] + glue + [main]),
+             f"(* from soundevent/{rel} :: the nine converters and the dispatch *)")
+    except (Unsupported, OSError, SyntaxError, KeyError, IndexError, AttributeError, TypeError, ValueError, RecursionError) as ex:
+        fall_back("geometry_to_shapely", ex)
+    unit("compute_bounds_py", "geometry/operations.py", "compute_bounds",
+         {"params": {"geometry": "G"}, "ret": "T(Q,Q,Q,Q)",
+          "calls": {"geometry_to_shapely": {"coq": "geometry_to_shapely", "args": ["G"], "ret": "Shp", "monadic": True}}})
+
+    # ---- C16 / C17 / C20: coordinate lookup and label cropping on one axis
+    unit("get_dim_range", "arrays/dimensions.py", "get_dim_range", {"params": {"array": "Arr", "dim": "U"}, "custom": [arr_handler], "ret": "T(Q,Q)"})
+    unit("get_coord_index", "arrays/dimensions.py", "get_coord_index",
+         {"params": {"arr": "Arr", "dim": "U", "value": "Q", "raise_error": "B"}, "custom": [arr_handler], "ret": "Z"})
+    unit("crop_dim", "arrays/operations.py", "crop_dim",
+         {"params": {"arr": "Arr", "dim": "U", "start": "O(Q)", "stop": "O(Q)", "right_closed": "B", "left_closed": "B", "eps": "Q"},
+          "custom": [arr_handler], "ret": "Arr"})
 
     # ---- C05: compute_geometric_features: the nine per-type functions and the dispatch table
     rel = "geometry/features.py"
